@@ -28,6 +28,9 @@ type c07Case struct {
 	Offset int64  `json:"offset"` // ns into the second at which the history starts
 	Slow   int64  `json:"slow"`   // virtual duration of every storage write (ns)
 	Ops    []op   `json:"ops"`
+	// LoadDesc: storage hands back the records in descending key order on
+	// reload (dependents d1 < i1, i2 < r1 < r2 then come after their targets).
+	LoadDesc bool `json:"loadDesc,omitempty"`
 }
 
 // slowStore makes every storage write take (virtual) time, so that the clock
@@ -54,6 +57,7 @@ func genC07(t *rapid.T) c07Case {
 	c.Kind = rapid.SampledFrom([]string{"indexed", "linear"}).Draw(t, "kind")
 	c.Offset = rapid.SampledFrom([]int64{0, 0, 1, 300e6, 999999999}).Draw(t, "offset")
 	c.Slow = rapid.SampledFrom([]int64{0, 0, 0, 600e6, 1e9}).Draw(t, "slow")
+	c.LoadDesc = rapid.Bool().Draw(t, "loadDesc")
 	n := rapid.IntRange(2, 14).Draw(t, "nops")
 	usedFar := false
 	for i := 0; i < n; i++ {
@@ -127,6 +131,7 @@ func runC07(c c07Case) *vlib.Outcome {
 	}
 	w := newWorld(c.Kind, store, o)
 	w.strictEvents = true
+	w.loadDesc = c.LoadDesc
 	w.open("L")
 	ml := w.model["L"]
 	universe := append([]string{"d1", "r2", "keep"}, c07Items...)
